@@ -55,6 +55,11 @@ def dispatch_scenario(rng: random.Random, *, family=None, with_invalid=True, sto
             # the library's instance transformations are applied to the instance under test (they return NEW instances; results dropped)
             lines.append("xform")
             lines.append("snap")
+        if peeks and "+huge" not in family and rng.random() < (0.12 if gen.has_zero(jobs) else 0.02):
+            # (not with times beyond 2**63: matplotlib / numpy cannot hold them - a limit of the drawing library, see C20)
+            # the caller looks at the schedule being built (a Gantt chart of the live schedule, thrown away)
+            lines.append("draw")
+            lines.append("snap")
         if peeks and rng.random() < 0.06:
             # the caller annotates the dispatcher's schedule (a dict of its own) the way the library's solvers annotate their results
             lines.append("stamp")
